@@ -79,6 +79,9 @@ func (g *mgen) bech(id int) (string, string) {
 	case 1:
 		for {
 			s := g.h.p.badAcc(g.h.r)
+			if g.h.r.Chance(45) {
+				s = g.h.p.nearAcc(g.h.r) // the refusals nearest to an accepted text: well-formed bech32, wrong human-readable part
+			}
 			if _, err := sdk.AccAddressFromBech32(s); err != nil && s != "" {
 				return "BBad", s
 			}
